@@ -61,6 +61,11 @@ def nth_call_fails(sandbox: str, n: int | None, err: int = _errno.EIO):
     inj = Injector(sandbox, n, err)
     real_open, real_mkdir, real_unlink = io.open, os.mkdir, os.unlink
     real_replace, real_rename, real_fsync, real_osopen = os.replace, os.rename, os.fsync, os.open
+    real_chmod = os.chmod
+
+    def f_chmod(path, *a, **kw):
+        inj.hit("chmod", path if isinstance(path, (str, bytes, os.PathLike)) else b"<fd>")
+        return real_chmod(path, *a, **kw)
 
     def f_open(file, mode="r", *a, **kw):
         if isinstance(file, (str, bytes, os.PathLike)) and any(c in mode for c in "wax+"):
@@ -101,10 +106,12 @@ def nth_call_fails(sandbox: str, n: int | None, err: int = _errno.EIO):
     io.open = f_open
     builtins.open = f_open
     os.mkdir, os.unlink, os.replace, os.rename, os.fsync, os.open = f_mkdir, f_unlink, f_replace, f_rename, f_fsync, f_osopen
+    os.chmod = f_chmod
     try:
         yield inj
     finally:
         io.open = real_open
         builtins.open = real_builtin_open
+        os.chmod = real_chmod
         os.mkdir, os.unlink, os.replace, os.rename, os.fsync, os.open = (real_mkdir, real_unlink, real_replace,
                                                                          real_rename, real_fsync, real_osopen)
